@@ -121,6 +121,15 @@ pub fn run_step(engine: &mut Engine, cap: &mut OutCapture, step: &Value) -> Valu
                 Err(e) => json!({"s":"err","k":"io","m":e.to_string(),"out":""}),
             }
         }
+        "sched_arm" => {
+            crate::sched::arm(step);
+            crate::util::child_mark("777002");
+            json!({"s":"ok","v":[],"out":""})
+        }
+        "sched_report" => {
+            let r = crate::sched::report();
+            json!({"s":"ok","v":[r],"out":""})
+        }
         "int_plan" => {
             crate::intr::set_controller(engine.get_thread_state_controller());
             let k = step.get("k").and_then(|p| p.as_u64()).unwrap_or(0) as usize;
